@@ -6,7 +6,9 @@ import A2lVerif.Lemmas.TypedLoad
 * `Exact t g`: the generic value `g` is exactly what the generated code for the output type `t` expects (the same
   reading as `Shape`, but for `OTy`: after the fixup phase).
 * `Flat S`: the fixup phase and the interpreter agree on the definition `S` (no "no type" / tagged type / nested
-  sequence in a position where the code generators have no case). Every definition that `parseA2ml` accepts and the
+  sequence in a position where the code generators have no case; the elements of an array are scalars or the array is
+  a `char[n]` string: these are the arrays for which the generated code compiles, and for them the interpreter's
+  array loop, which stops after an element that consumed nothing, always delivers `dim` elements). Every definition that `parseA2ml` accepts and the
   macro compiles satisfies it.
 * `shape_exact`: `Shape S g → Flat S → Exact (fixItem S) g`, and the same for the data of a tagged item / the root.
 -/
@@ -106,7 +108,7 @@ def flat : Spec → Bool
   | .int _ => true
   | .float => true
   | .double => true
-  | .array of _ => isChar of || (!isNone of && !isTaggedS of && flat of)
+  | .array of _ => isChar of || isScalarS of
   | .enum _ => true
   | .struct items => flatL items
   | .seq of => !isSeq of && !isNone of && !isTaggedS of && flat of
@@ -135,6 +137,9 @@ theorem blockItems_eq (s : Spec) : blockItems s =
   cases s with
   | seq of => cases of <;> rfl
   | _ => rfl
+
+theorem scalar_flat {s : Spec} (h : isScalarS s = true) : flat s = true ∧ isTaggedS s = false := by
+  cases s <;> simp_all [isScalarS, flat, isTaggedS]
 
 theorem flat_not_none {s : Spec} (h : flat s = true) : isNone s = false := by
   cases s <;> simp_all [flat, isNone]
@@ -261,10 +266,10 @@ theorem shape_exact :
       exact h
     | false =>
       rw [hc] at h hf
-      simp only [Bool.false_eq_true, if_false, Bool.false_or, Bool.and_eq_true] at h hf ⊢
-      obtain ⟨gs, rfl, hl, hall⟩ := h
+      simp only [Bool.false_eq_true, if_false, Bool.false_or] at h hf ⊢
+      obtain ⟨gs, rfl, _, hl, hall⟩ := h
       rw [Exact]
-      exact ⟨isTagged_fixItem (by simpa using hf.1.2), gs, rfl, hl, fun x hx => ih hf.2 x (hall x hx)⟩
+      exact ⟨isTagged_fixItem (scalar_flat hf).2, gs, rfl, hl hf, fun x hx => ih (scalar_flat hf).1 x (hall x hx)⟩
   · intro items _ g h
     rw [Shape] at h
     obtain ⟨off, s, rfl, hk⟩ := h
@@ -285,7 +290,7 @@ theorem shape_exact :
     exact ⟨isTagged_fixItem hf.1.2, gs, rfl, fun x hx => ih hf.2 x (hall x hx)⟩
   · intro items ih hf g h
     rw [Shape] at h
-    obtain ⟨its, rfl, hall⟩ := h
+    obtain ⟨its, rfl, _, hall⟩ := h
     rw [flat] at hf
     rw [fixItem, Exact]
     exact ⟨its, rfl, fun it hit => ih hf it (hall it hit)⟩
